@@ -159,7 +159,7 @@ class Model:
     def stale(self):
         if self.mat is None or self.cor_explicit is not None:
             return False
-        if self.atnums is None:
+        if self.atnums is None or isinstance(self.atnums, dict):
             return True
         a = np.asarray(self.atnums, float)
         return a.shape != self.mat.shape or not np.array_equal(a, self.mat)
@@ -307,6 +307,8 @@ def run_ops(trace, with_observer=True, check=True):
                 # a construction with inconsistent arrays must be rejected; nothing to check further
                 return out, mut_outcomes, None, info
             model = Model()
+            if not check and any(isinstance(op["kwargs"].get(a), dict) for a in PER_ATOM):
+                return out, mut_outcomes, None, info
             for a in ATTRS:
                 if a in op["kwargs"] and a != "charge":
                     model.assign(a, op["kwargs"][a])
@@ -316,6 +318,7 @@ def run_ops(trace, with_observer=True, check=True):
                 ls = {a: length_of(a, op["kwargs"][a]) for a in PER_ATOM if op["kwargs"].get(a) is not None}
                 if "wrong-rank" in ls.values():
                     out.append(_v("I5_wrong_rank_accepted", f"constructed with a per-atom value of the wrong number of dimensions: {ls}", trace, k, False))
+                    return out, mut_outcomes, None, info  # the reference model has no meaning for such an object
                 if len(set(ls.values())) > 1:
                     out.append(_v("I5_bad_construction_accepted", f"constructed with per-atom lengths {ls}", trace, k, False))
                 check_invariants(obj, model, trace, k, out)
@@ -369,8 +372,9 @@ def run_ops(trace, with_observer=True, check=True):
                 others = model.other_lengths(attr)
                 if L == "wrong-rank":
                     out.append(_v("I5_wrong_rank_accepted", f"{attr}={v} (wrong number of dimensions for a per-atom array) was accepted", trace, k, model.stale()))
-                elif any(L != o for o in others):
-                    out.append(_v("I5_breaking_assignment_accepted", f"{attr} of length {L} accepted although other per-atom arrays have lengths {sorted(others)}", trace, k, model.stale()))
+                    return out, mut_outcomes, None, info  # the reference model has no meaning for such an object
+                elif any(L != o for o in others if o != "wrong-rank"):
+                    out.append(_v("I5_breaking_assignment_accepted", f"{attr} of length {L} accepted although other per-atom arrays have lengths {sorted(others, key=str)}", trace, k, model.stale()))
             if attr in ("nelec", "spinpol") and obj.mo is not None:
                 out.append(_v("I4_assignment_accepted_with_mo", f"{attr}={v} accepted although orbitals are present", trace, k, model.stale()))
             if attr in ("charge", "nelec", "spinpol"):
@@ -437,7 +441,8 @@ def run_threads(trace, rng=None):
                 except Exception:  # noqa: BLE001
                     pass
         fns.append(background)
-    with sched.Steps(sched=baton) as st:
+    # (step budget: a livelock among the clients ends as a StepBudgetExceeded death of a client, not as a hang)
+    with sched.Steps(budget=3_000_000, sched=baton) as st:
         done = baton.run(fns)
     out = []
     for c in done[: len(hists)]:
